@@ -119,6 +119,7 @@ def run(ctx):
         cases = one_per_prefix(gen_token(ctx, name, simulate=num, **kw))
         path, _ = ctx.write_cases(name + ".ndjson", cases)
         ctx.replay(PKG, OVERLAY, "^TestVerifC08Token$", path, label=name, shards=16, binp=binp)
+    align(ctx, binp)
 
 
 def align(ctx, binp):
